@@ -35,6 +35,13 @@ LONG_N = (63, 64, 65)
 
 def leaf(n):
     k = n["k"]
+    if n.get("logical") == "decimal" and k in ("bytes", "fixed"):
+        import decimal
+
+        sc = n.get("scale", 0)
+        vals = [decimal.Decimal(1).scaleb(-sc), decimal.Decimal(-15).scaleb(-sc), decimal.Decimal(0)]
+        raw = [b"\x00" * n["size"], b"\x7f" * n["size"]] if k == "fixed" else [b"\x01", b""]
+        return vals + raw
     if n.get("logical") == "date" and k == "int":
         import datetime
 
